@@ -7,7 +7,35 @@ import (
 	"verif/harness/sym"
 )
 
-func SetupC09Host() any { return SetupC01Lookup() }
+// SetupC09Host builds the corpus router; with hist=1 every hostname of the set is additionally extended by a
+// label ("a.b" -> "a.b.zz/zq", "zz9.a.b/zq"), registered and deleted again before the lookups (the registered
+// set is the same, the tree went through the hostname split/merge paths of insert and remove).
+func SetupC09Host() any {
+	st := SetupC01Lookup().(*lookupState)
+	if sym.Param("hist") == 1 {
+		for _, rt := range st.set.Routes {
+			slash := 0
+			for rt.Pattern[slash] != '/' {
+				slash++
+			}
+			if slash == 0 {
+				continue
+			}
+			for _, extra := range []string{rt.Pattern[:slash] + ".zz/zq", "zz9." + rt.Pattern[:slash] + "/zq", rt.Pattern[:slash] + "/zq/{zz}"} {
+				if st.r.Has(rt.Method, extra) {
+					continue
+				}
+				if _, err := st.r.Handle(rt.Method, extra, noopHandler); err != nil {
+					continue
+				}
+				if _, err := st.r.Delete(rt.Method, extra); err != nil {
+					panic(err)
+				}
+			}
+		}
+	}
+	return st
+}
 
 // HarnessC09Host: hostname routes match the whole host (port and one trailing dot removed), path-only
 // routes are the fallback, and a method without hostname routes ignores the Host altogether.
